@@ -71,6 +71,8 @@ TEXTS = {
     "no-trailing-newline": "let x = 1;",
     "only-comment": "// nothing here\n",
     "import-field-chain": 'let b = import "./big.ucg";\nlet t = b.cfg;\nlet v = t.port + b.far;\nlet w = b.cfg.host;\n',
+    "deeply-nested-list": "let deep = " + "[" * 30 + "1" + "]" * 30 + ";\n",
+    "deeply-nested-mixed": "let deep = " + "[{a = (" * 10 + "1" + ")}]" * 10 + ";\n",
     "k-unsaved": "// edited, never saved\n" * 30 + "let zz = 1;\n",
     "uses-k-test": 'let k = import "./k_test.ucg";\nlet y = k.kk + 1;\n',
     "string-with-line-break": 'let s = "one\ntwo\nthree";\nlet e = "a\\n\\n\\nb";\n',
